@@ -82,6 +82,7 @@ def run(ctx):
 
     n_docs = 100 if tier == "quick" else 1200
     n_layouts = 3 if tier == "quick" else 5
+    n_thm_layouts = 2 if tier == "quick" else 4
     tmp = tempfile.mkdtemp(prefix="verif_c02_")
 
     def snap_of(make, heavy):
@@ -116,6 +117,49 @@ def run(ctx):
         except Exception as e:
             res.skipped += 1
             return
+        # the layouts of the round-trip theorem (C02_read_layout_decay): the model renders the document under a layout drawn
+        # from a seed; where the theorem's hypotheses hold the real parser must read that very text as the document
+        if len(base_text) < 20000:
+            try:
+                base_wire = conv_tree(raw_parse(base_text))
+            except Exception:
+                base_wire = None
+            for j in range(n_thm_layouts if base_wire is not None else 0):
+                lseed = rng.randrange(1 << 48)
+
+                def on_layout(ans, base_wire=base_wire, base=base, lseed=lseed, case0=case0, heavy=heavy):
+                    if ans is None:
+                        return
+                    if ans[0] != "ok":
+                        res.violation("the model cannot render the document", dict(case0, layout_seed=lseed), model=ans, clause="model tie: layout theorem")
+                        return
+                    text, gg, gl, gs = ans[1]
+                    res.count("theorem_layouts")
+                    if not (gg == "T" and gl == "T"):
+                        res.violation("a generated layout / the grammar does not meet the theorem's hypotheses", dict(case0, layout_seed=lseed, flags=[gg, gl]),
+                                      clause="model tie: layout theorem (hypotheses)")
+                        return
+                    if gs != "T":
+                        res.count("theorem_layouts_doc_outside_hypotheses")
+                        return
+                    res.count("theorem_layouts_in_hypotheses")
+                    case = dict(case0, variant=text if len(text) < 3000 else text[:400] + "...", packaging="string, layout of the theorem", layout_seed=lseed)
+                    try:
+                        w = conv_tree(raw_parse(text))
+                        got = snap_of(lambda: DecFileParser.from_string(text), heavy)
+                    except Exception as e:
+                        res.violation(f"a text the round-trip theorem covers is rejected: {type(e).__name__}: {str(e)[:120]}", case, clause="rewritten input must parse")
+                        return
+                    if w != base_wire:
+                        res.violation("a text the round-trip theorem covers is not read as the document it renders", case, impl=w[:3], model=base_wire[:3],
+                                      clause="model tie: layout theorem")
+                    elif canon_json(got) != canon_json(base):
+                        diff = [k for k in base if canon_json(base[k]) != canon_json(got.get(k))]
+                        res.violation("answers differ between two inputs that differ only in layout / packaging", case,
+                                      impl={k: got.get(k) for k in diff[:2]}, model={k: base[k] for k in diff[:2]}, clause="identical answers: " + ",".join(diff))
+                    res.case(canon_json([case0["base"], text]) if len(base_wire) >= 2 else None)
+
+                batch.add(["render_layout", [], lseed, base_wire], on_layout)
         for j in range(n_layouts):
             lay = gen.Layout(rng)
             mode = rng.choice(["string", "string", "files", "files", "one-file"])
